@@ -584,21 +584,14 @@ def bodyOf (ext : Ext) (name : String) : Option (List VArg → XR V) :=
                                     | none => .unsup)
       | _ => .unsup
   | "MATCH" => some fun vs =>
-      -- `sorted(lookup_array)` compares every element; `Model.C15.ascendingE` stops at the first descent, so an
-      -- error cell behind a descent raises in the code and not in the model: outside
-      let go (key : S) (rows : List (List S)) (mt : S) : XR V :=
-        -- … and `lookup_array != sorted(lookup_array)` compares the two lists with `==`, under which a blank
-        -- equals 0, '' and FALSE: with blank cells the test and the model's "no descent" differ: outside
-        let hasErr := rows.flatten.any fun x => (isErr x).isSome || isBlank x
-        match C15.modeOf mt with
-        | .ok .exact => ofC15 (C15.MATCH key rows mt)
-        | _ => if hasErr then .unsup else ofC15 (C15.MATCH key rows mt)
+      -- `Model.C15.MATCH` models `sorted(lookup_array)` and the list `!=` of CPython (error and blank cells
+      -- included); `Res.unmodelled` (long arrays that are not one run) is "outside the model" (`ofC15`)
       match vs with
       | [.s key, r] => (match rowsOf r with
-                        | some rows => go key rows (.num (.int 1))
+                        | some rows => ofC15 (C15.MATCH key rows (.num (.int 1)))
                         | none => .unsup)
       | [.s key, r, .s mt] => (match rowsOf r with
-                               | some rows => go key rows mt
+                               | some rows => ofC15 (C15.MATCH key rows mt)
                                | none => .unsup)
       | _ => .unsup
   | "VLOOKUP" => some fun vs => match vs with
@@ -779,9 +772,6 @@ def powerOutside (fname : List Char) (l r : S) : Bool :=
   fname = "POWER".toList &&
   (match toNumber Ext.none l, toNumber Ext.none r with
    | .ok a, .ok b => (decide (0 ≤ a.toRat) && !(Num.isIntegral b)) || decide (b.toRat.num.natAbs > 4096)
-   -- `validate_args` casts `number` (XlNumber) before it looks at `power`: a text that is no number gives #VALUE!
-   -- even if `power` is an error; `Value.power` returns the error of `power` (its `firstErr` comes first)
-   | .xl _, _ => (isErr l).isNone && (isErr r).isSome
    | _, _ => false)
 
 def ofXR (id : Nat) : XR V → AppR
